@@ -229,8 +229,11 @@ class Block:
         allfactors = set()
         for cFactor in self.continuous_factors:
             for dependent in cFactor.get_levels():
-                if isinstance(dependent, ContinuousFactor) and dependent.name not in allfactors:
-                    raise RuntimeError("WARNING: Derived Conitunuous factor {} has dependency {} not included in the deisgn".format(cFactor.name, dependent.name))
+                # A window reads the values of its factors, so they are dependencies, too
+                needed = dependent.factors if isinstance(dependent, ContinuousFactorWindow) else [dependent]
+                for needed_factor in needed:
+                    if isinstance(needed_factor, ContinuousFactor) and needed_factor.name not in allfactors:
+                        raise RuntimeError("WARNING: Derived Conitunuous factor {} has dependency {} not included in the deisgn".format(cFactor.name, needed_factor.name))
             # Every continuous factor of the design can be a dependency of a later one
             allfactors.add(cFactor.name)
         return
